@@ -201,6 +201,32 @@ class C02(E1Prop):
                     o['dt'] = rng.choice([1, 5, 30])
                 self.script = seq
                 self.nprobes += 1
+            elif w.use_queue and rng.random() < 0.3:
+                # story: a PR sits in the queue while an admin creates a
+                # newer development branch (new branch pushed, then the
+                # queues are rebuilt): the fault probe goes on that job
+                dests = ops.dest_branches(w.cfg)
+                devs = [d for d in dests if d.startswith('development/')]
+                major = max(int(d.split('/')[1].split('.')[0])
+                            for d in devs)
+                new = 'development/%d.%d' % (major + 1, rng.choice([0, 3]))
+                d = rng.choice(dests[:max(1, len(dests) - 1)])
+                seq = [{'op': 'open_pr', 'actor': 'alice',
+                        'src': 'bugfix/TEST-611', 'dst': d, 'kind': 'new'},
+                       {'op': 'eval', 'p': 0},
+                       {'op': 'ci_green_all', 'which': ['src', 'w']},
+                       {'op': 'eval', 'p': 0},
+                       {'op': 'api', 'job': 'create_branch',
+                        'kwargs': {'branch': new}, 'queue_only': True},
+                       {'op': 'probe', 'i': 10 ** 6, 'last': True,
+                        'wipe': rng.random() < 0.3,
+                        'nfaults': 6 if tier == 'quick' else 0,
+                        'skip_roll': 1.0,
+                        'pick': rng.randrange(10 ** 9)}]
+                for o in seq:
+                    o['dt'] = rng.choice([1, 5, 30])
+                self.script = seq
+                self.nprobes += 1
         if getattr(self, 'script', None):
             return self.script.pop(0)
         op = self.gen.next(w)
